@@ -43,6 +43,9 @@ pub struct Stats {
     pub schedule_hashes: BTreeSet<u64>,
     pub split_tree_hashes: BTreeSet<u64>,
     pub nonsequential_executions: u64,
+    /// rolling hash of this run's event log: every decision trace, split tree, number of
+    /// clock reads and hasher instances, and every observed result digest (in order)
+    pub run_hash: u64,
 }
 
 impl Stats {
@@ -50,6 +53,10 @@ impl Stats {
         if n > 0 {
             *self.faults.entry(name.to_string()).or_insert(0) += n;
         }
+    }
+    /// Mix an observed result digest into the run's event-log hash.
+    pub fn observe(&mut self, digest: u64) {
+        self.run_hash = crate::rng::mix64(self.run_hash ^ digest);
     }
     pub fn probe(&mut self, name: &str, hit: bool) {
         let e = self.probes.entry(name.to_string()).or_insert(0);
@@ -60,6 +67,10 @@ impl Stats {
     /// Account for one simulated execution.
     pub fn execution(&mut self, env: &crate::exec::Env, info: &RunInfo) {
         let s = &info.report.stats;
+        self.observe(info.report.trace_hash);
+        self.observe(info.report.shape_hash);
+        self.observe(info.clock_reads);
+        self.observe(info.hash_instances);
         self.executions += 1;
         self.sim_ticks += s.ticks;
         self.sim_clock_micros += info.clock_reads * env.clock.1 % 1_000_000_007;
@@ -193,6 +204,10 @@ pub struct Batch<C> {
     pub violation_count: u64,
     /// the first few runs, for the evidence samples
     pub samples: Vec<RunRecord<C>>,
+    /// order-independent digest of all per-run event-log hashes
+    pub event_digest: u64,
+    /// (run index, event-log hash) per run, only when VERIF_EVENT_LOG is set
+    pub event_log: Vec<(u64, u64)>,
 }
 
 impl<C> Batch<C> {
@@ -206,6 +221,8 @@ impl<C> Batch<C> {
             violating: Vec::new(),
             violation_count: 0,
             samples: Vec::new(),
+            event_digest: 0,
+            event_log: Vec::new(),
         }
     }
     fn absorb(&mut self, mut o: Batch<C>) {
@@ -219,6 +236,8 @@ impl<C> Batch<C> {
         self.violating.append(&mut o.violating);
         self.violation_count += o.violation_count;
         self.samples.append(&mut o.samples);
+        self.event_digest = self.event_digest.wrapping_add(o.event_digest);
+        self.event_log.append(&mut o.event_log);
     }
 }
 
@@ -232,6 +251,7 @@ pub fn run_cases<P: Property>(p: &P, seed: u64, tier: Tier, count: u64) -> Batch
     let fixed = p.fixed_cases();
     let nfixed = fixed.len() as u64;
     let total = count + nfixed;
+    let log_events = std::env::var("VERIF_EVENT_LOG").is_ok();
     std::thread::scope(|scope| {
         for _ in 0..worker_count() {
             scope.spawn(|| {
@@ -254,6 +274,17 @@ pub fn run_cases<P: Property>(p: &P, seed: u64, tier: Tier, count: u64) -> Batch
                         let key = p.nontrivial_key(&case, &stats);
                         local.evaluations += 1;
                         local.total.merge(&stats);
+                        let outcome_hash = match &outcome {
+                            Outcome::Pass => 1,
+                            Outcome::Degenerate(w) => crate::rng::hash_str(w),
+                            Outcome::Violation(v) => crate::rng::hash_str(&format!("{}|{}", v.class, v.detail)),
+                            Outcome::HarnessError(e) => crate::rng::hash_str(e),
+                        };
+                        let run_hash = crate::rng::mix64(stats.run_hash ^ crate::rng::mix64(outcome_hash) ^ key.unwrap_or(0));
+                        local.event_digest = local.event_digest.wrapping_add(crate::rng::mix64(run_hash ^ crate::rng::mix64(i)));
+                        if log_events {
+                            local.event_log.push((i, run_hash));
+                        }
                         match &outcome {
                             Outcome::Pass => {
                                 if let Some(k) = key {
@@ -295,6 +326,14 @@ pub fn run_cases<P: Property>(p: &P, seed: u64, tier: Tier, count: u64) -> Batch
     b.violating.truncate(MAX_KEPT_VIOLATIONS);
     b.samples.sort_by_key(|r| r.index);
     b.harness_errors.sort();
+    b.event_log.sort();
+    if let Ok(path) = std::env::var("VERIF_EVENT_LOG") {
+        let mut text = String::new();
+        for (i, h) in &b.event_log {
+            text.push_str(&format!("{} {:016x}\n", i, h));
+        }
+        let _ = std::fs::write(path, text);
+    }
     b
 }
 
@@ -536,6 +575,7 @@ pub fn drive<P: Property>(p: &P, tier: Tier, out: &mut dyn std::io::Write) -> i3
             },
             "engine": "E1 poolsim (recursive single-thread simulation of rayon-core; switches only at join boundaries)",
             "workers": worker_count(),
+            "event_log_digest": format!("{:016x}", batch.event_digest),
         },
         "assumptions": p.assumptions(),
         "wall_s": wall,
